@@ -319,7 +319,7 @@ def y4(ctx, F, D):
     fn = F.fn("chess::piece::Piece::as_char")
     nf = sym_fn(fn, F)
     for (o, t), cp in GLYPH.items():
-        v = hir.fold(nf, {SELF("owner"): ("variant", PL + o), SELF("piece_type"): ("variant", PT + t)}, D)
+        v = hir.fold(nf, {SELF("owner"): ("variant", PL + o), SELF("piece_type"): ("variant", PT + t)}, D, hir.table_helpers(F))
         ctx.check("C20.Y4", "glyph:%s %s" % (o, t), v == ("lit", chr(cp)), fn=fn["path"], file=fn["file"], line=fn["span"][0],
                   what="the diagram glyph is not the Unicode chess symbol of that piece", expected="U+%04X" % cp,
                   found=hir.fmt(v, 40))
